@@ -118,6 +118,20 @@ impl RtpsStatefulReader {
         source_guid_prefix: GuidPrefix,
         source_timestamp: Option<Time>,
     ) {
+        // Validity of the DataFrag submessage (RTPS 8.3.7.3.3): fragment numbers start at 1,
+        // the fragment size can not be 0 nor exceed the data size and the starting fragment
+        // must be one of the fragments of the sample. Invalid submessages are ignored.
+        let fragment_size = data_frag_submessage.fragment_size() as u32;
+        let data_size = data_frag_submessage.data_size();
+        let fragment_starting_num = data_frag_submessage.fragment_starting_num();
+        if fragment_size == 0
+            || fragment_size > data_size
+            || fragment_starting_num == 0
+            || fragment_starting_num > data_size.div_ceil(fragment_size)
+        {
+            return;
+        }
+
         let writer_guid = Guid::new(source_guid_prefix, data_frag_submessage.writer_id());
         let sequence_number = data_frag_submessage.writer_sn();
         if let Some(writer_proxy) = self
